@@ -471,8 +471,28 @@ impl BufCheck {
                 }
                 // refused: oversize commit / consume
                 5 => {
+                    let stale = src.chance(1, 3) && free >= 2;
                     let which = src.coin();
-                    if which {
+                    if stale {
+                        // Two write windows taken one after the other (the
+                        // handle guard allows it): a commit through the first
+                        // makes the second one stale. A commit through the
+                        // second that fits its own length but no longer the
+                        // ring must be refused like any other over-sized one.
+                        let w1 = ring.write_buf().map_err(|e| Violation::new(format!("{prop}:write_buf-err"), e))?;
+                        let w2 = ring.write_buf().map_err(|e| Violation::new(format!("{prop}:write_buf-err"), e))?;
+                        let a = src.range(1, free - 1);
+                        let b = (free - a) + 1 + src.below(a);
+                        ctx.count("fault:oversize_commit");
+                        ctx.count("oversize_commit_through_a_stale_window");
+                        if let Err(p) = catch(|| w1.produce(a, &[])) {
+                            viol!("C01", "valid-commit-refused", "op {opi}: produce({a}) within a {free}-sample window panicked: {}", p.msg);
+                        }
+                        let r = catch(|| w2.produce(b, &[]));
+                        if r.is_ok() {
+                            viol!("C01", "oversize-commit-accepted", "op {opi}: produce({b}) through a write window taken before another commit of {a} was accepted although only {} of {cap} were free by then", free - a);
+                        }
+                    } else if which {
                         let w = ring.write_buf().map_err(|e| Violation::new(format!("{prop}:write_buf-err"), e))?;
                         let n = w.len() + 1 + src.below(3);
                         ctx.count("fault:oversize_commit");
